@@ -163,6 +163,24 @@ pub fn scenarios(tier: &str) -> Vec<Scenario> {
             Cfg::default(),
         )
     }));
+    v.push(Scenario::new("subtoken_stake_left_by_a_slash_then_reward_withdrawal", &["slash_ok", "withdraw_ok", "end"], || {
+        // found missing by seed C14f (the same shape as F1, reached through the distribution module): a
+        // slash leaves one of two delegators with less than a token, that delegator withdraws a reward of
+        // at least a token, time passes, the other delegator goes on — nothing may panic
+        run_fixed(
+            &[
+                Op::Delegate { d: 0, v: 0 },
+                Op::Delegate { d: 1, v: 0 },
+                Op::Advance { dt: DtSel::Sym(0, 400 * 86_400) },
+                Op::Slash { v: 0, p: PSel::Boundary },
+                Op::Withdraw { d: 0, v: 0 },
+                Op::Advance { dt: DtSel::Sym(0, 400 * 86_400) },
+                Op::Delegate { d: 1, v: 0 },
+                Op::Undelegate { d: 1, v: 0 },
+            ],
+            Cfg::default(),
+        )
+    }));
     v.push(Scenario::new("seq3_small_alphabet", &["delegate_ok", "undelegate_ok", "unbonding_paid", "unbonding_still_pending", "slash_ok", "slash_err", "end"], || {
         run_seq(&alphabet_small(), 3, Cfg::default())
     }));
